@@ -22,8 +22,10 @@ func main() {
 	slow := fs.Bool("slow", false, "allow cases that cost seconds of real time (refresh failures, fleet waits)")
 	dir := fs.String("dir", "/verif/corpus", "scenario: directory of scenario files")
 	only := fs.Int("only", -1, "hist: generate only the history with this index")
+	foc := fs.String("focus", "", "hist: bias of the generator (dry, multi, cooldown, bands, ...)")
 	fs.Parse(os.Args[2:])
 	slowOK = *slow
+	focus = *foc
 	w := bufio.NewWriterSize(os.Stdout, 1<<20)
 	if *out != "-" {
 		f, err := os.Create(*out)
